@@ -51,7 +51,7 @@ Qed.
 Theorem kick_y_conserves n nb it (offs D : Z -> Qc) :
   valid_it it -> 0 < n < 2 ^ 30 -> 0 < nb ->
   (forall b x, 0 <= b < nb -> 0 <= x < n ->
-     row_ok n it (offs (Z.min b (nb - 1) * n + x)) (fun y => D (didx n b x y))) ->
+     row_ok n it (offs (Z.min b (nb - 1) * n + x)) (rtrunc n (fun y => D (didx n b x y)))) ->
   sumQ 0 (Z.to_nat (nb * n * n)) (apply_y n nb it (updateSM n it offs) D) =
   sumQ 0 (Z.to_nat (nb * n * n)) D.
 Proof.
@@ -61,7 +61,7 @@ Proof.
   rewrite Z2Nat.id in Hb, Hx by lia.
   rewrite (sumZ_ext QcF _ _ _ (row_out n it (sm_entry n it (offs (Z.min b (nb - 1) * n + x)))
                                   (fun ys => D (didx n b x ys)))).
-  - rewrite sm_row_conserves by (auto; apply Hrow; lia).
+  - rewrite sm_row_conserves_trunc by (auto; apply Hrow; lia).
     apply (sumZ_ext QcF). intros y Hy. rewrite didx_flat. reflexivity.
   - intros y Hy. rewrite Z2Nat.id in Hy by lia.
     unfold apply_y. destruct (cell_decode n b x y) as (-> & -> & ->); try lia.
@@ -78,7 +78,7 @@ Qed.
 Theorem kick_x_conserves n nb it (offs D : Z -> Qc) :
   valid_it it -> 0 < n < 2 ^ 30 -> 0 < nb ->
   (forall b y, 0 <= b < nb -> 0 <= y < n ->
-     row_ok n it (offs y) (fun x => D (didx n b x y))) ->
+     row_ok n it (offs y) (rtrunc n (fun x => D (didx n b x y)))) ->
   sumQ 0 (Z.to_nat (nb * n * n)) (apply_x n nb it (updateSM n it offs) D) =
   sumQ 0 (Z.to_nat (nb * n * n)) D.
 Proof.
@@ -88,7 +88,7 @@ Proof.
   rewrite (sumZ_swap QcF), (sumZ_swap QcF 0 (Z.to_nat n) 0 (Z.to_nat n) (fun x y => D _)).
   apply (sumZ_ext QcF). intros y Hy. rewrite Z2Nat.id in Hy by lia.
   rewrite (sumZ_ext QcF _ _ _ (row_out n it (sm_entry n it (offs y)) (fun xs => D (didx n b xs y)))).
-  - rewrite sm_row_conserves by (auto; apply Hrow; lia).
+  - rewrite sm_row_conserves_trunc by (auto; apply Hrow; lia).
     apply (sumZ_ext QcF). intros x Hx. rewrite didx_flat. reflexivity.
   - intros x Hx. rewrite Z2Nat.id in Hx by lia.
     unfold apply_x. destruct (cell_decode n b x y) as (-> & -> & ->); try lia.
